@@ -1060,7 +1060,9 @@ class HierarchicalMachine(Machine):
         self.add_states(new_states)
         for evt in state.events.values():
             # skip auto transitions
-            if state.auto_transitions and evt.name.startswith('to_') and evt.name[3:] in state.states:
+            # (auto transitions exist for nested states as well: to_<parent><separator><child>)
+            if state.auto_transitions and evt.name.startswith('to_') and \
+                    evt.name[3:] in state.get_nested_state_names():
                 continue
             if evt.transitions and evt.name not in self.events:
                 self.events[evt.name] = evt
